@@ -276,3 +276,50 @@ def result_program(t):
             {"k": "print", "e": var("g1")}, {"k": "print", "e": var("g2")}, {"k": "print", "e": var("g3")},
         ]
     return {"types": pl.types, "funcs": funcs, "main": main}
+
+
+def dyn_program(t, grow=9):
+    """Dynamic array of elements of type t: appended literals, copies of its own elements appended through a mutable
+    reference (the element is read from the array that the append may move), element assignment; all components of
+    all elements read back after every step."""
+    pl = Plan(t)
+    tn = pl.tyname(t)
+    main, funcs = [], {}
+    i32 = BY["i32"]
+
+    def idx(root, j):
+        return {"k": "index", "e": var(root), "i": progen.lit_ast(i32, j)}
+
+    cnt = [0]
+
+    def observe(out, n):
+        for j in range(n):
+            cnt[0] += 1
+            ev = "e%d" % cnt[0]            # the element is copied out first (components of elements of dynamic arrays are not places)
+            out.append({"k": "let", "n": ev, "dty": tn, "e": idx("xs", j)})
+            for place, ut in pl.units(t, var(ev)):
+                if ut["k"] == "p":
+                    out.append({"k": "print", "e": place})
+        out.append({"k": "print", "e": {"k": "len", "e": var("xs")}})
+        out.append({"k": "print", "e": var("g1")})
+    funcs["dup"] = {"params": ["r", "i"], "ptys": ["&'[]" + tn, "i32"], "body": [
+        {"k": "append", "lv": var("r"), "viaref": True, "e": {"k": "index", "e": var("r"), "i": var("i")}}]}
+    main.append({"k": "let", "n": "g1", "dty": "u64", "e": lit("u64", 0xA5A5A5A5A5A5A5A5)})
+    main.append({"k": "let", "n": "xs", "dty": "[]" + tn, "e": {"k": "array", "es": [pl.value(t, [0], 0)]}})
+    n = 1
+    observe(main, n)
+    for step in range(grow):
+        if step % 3 == 2:
+            main.append({"k": "let", "n": "n%d" % step, "dty": tn, "e": pl.value(t, [step], 10 + step)})
+            main.append({"k": "append", "lv": var("xs"), "e": var("n%d" % step)})
+        else:
+            # copy of the first / the last element, through the reference
+            main.append({"k": "expr", "e": {"k": "call", "f": "dup", "args": [{"k": "addr", "e": var("xs"), "mut": True},
+                                                                            progen.lit_ast(i32, 0 if step % 3 == 0 else n - 1)]}})
+        n += 1
+        observe(main, n)
+        if step == 4:
+            main.append({"k": "let", "n": "m4", "dty": tn, "e": pl.value(t, [3], 33)})
+            main.append({"k": "assign", "lv": idx("xs", 0), "e": var("m4")})
+            observe(main, n)
+    return {"types": pl.types, "funcs": funcs, "main": main}
